@@ -1918,9 +1918,10 @@ class PyCdlib:
 
         # No rr_moved found, so we have to create it.  Creating the record
         # already counts it in the Rock Ridge link counts of the root, so
-        # make sure first that the root can take the name (the user may have
-        # an entry of that name of their own).
-        self.pvd.root_directory_record().check_new_child(rr_moved_name)
+        # make sure first that the root can take the name and the Rock Ridge
+        # name (the user may have an entry of either name of their own).
+        self.pvd.root_directory_record().check_new_child(rr_moved_name,
+                                                         rr_moved_rr_name)
 
         rec = dr.DirectoryRecord()
         rec.new_dir(self.pvd, rr_moved_name,
